@@ -45,7 +45,7 @@ class CounterExample:
         self.what = what
         self.values = values      # name -> python number (int / Fraction / bool)
         self.funcs = funcs        # name -> {'table': [[args, val]...], 'else': val}
-        self.choices = choices    # list of ints (choose / concretize results, in order)
+        self.choices = choices    # choose results (ints) and concretize results (['e', v]), in order
         self.detail = detail or {}
 
     def to_json(self):
@@ -297,6 +297,9 @@ class Explorer:
         if n <= 0:
             raise Abort()
         if self.mode == "concrete":
+            # concretize results are recorded as ["e", v]: concrete values never ask for them
+            while isinstance(self.cchoices[self.cpos], (list, tuple)):
+                self.cpos += 1
             v = self.cchoices[self.cpos]
             self.cpos += 1
             return v
@@ -328,9 +331,7 @@ class Explorer:
     def concretize(self, term, lo, hi):
         """Enumerate every feasible value of an Int term within [lo, hi]."""
         if self.mode == "concrete":
-            v = self.cchoices[self.cpos]
-            self.cpos += 1
-            return v
+            raise AssertionError("concretize of a symbolic term in concrete mode")
         t = z3.simplify(term)
         if z3.is_int_value(t):
             return t.as_long()
@@ -365,7 +366,7 @@ class Explorer:
         self.pos += 1
         v = e[2][e[1]]
         self.solver.add(term == v)
-        self.choices.append(v)
+        self.choices.append(["e", v])
         return v
 
     # ----------------------------------------------------------- obligations
